@@ -28,8 +28,13 @@ def overrun_cases(ctx):
             # inflate the last entry's length beyond the list: the entries before it are returned, nothing from it
             off = marks[-1]
             cur = int.from_bytes(buf[off:off + 2], 'big')
-            buf[off:off + 2] = (cur + rng.choice((1, 2, 100, 65535 - cur))).to_bytes(2, 'big')
+            buf[off:off + 2] = (cur + rng.choice((1, 2, 100, 65534 - cur, 65535 - cur))).to_bytes(2, 'big')
+            new = int.from_bytes(buf[off:off + 2], 'big')
             c = enc.Case('entry_overrun', ('sct_list',), bytes(buf), [], None)
+            PREFIXES[c.line] = [core.lst(vals[:k]) for k in range(len(vals))]
+            out.append(c)
+            # the same with the bytes the lying length asks for actually present *behind* the list: the parser must not read them
+            c = enc.Case('entry_overrun_into_following_bytes', ('sct_list',), bytes(buf) + rng.randbytes(new + rng.choice((0, 1, 70))), [], None)
             PREFIXES[c.line] = [core.lst(vals[:k]) for k in range(len(vals))]
             out.append(c)
         else:
@@ -71,6 +76,7 @@ def run(ctx):
     if m:
         hx = re.sub(r'[^0-9a-fA-F]', '', m.group(1)).lower()
         common.run_differential(ctx, ['sct_list ' + hx], common.proj_value, label='corpus')
+    common.run_cg(ctx, ('sct ', 'sct_list ', 'ext_c_signed_certificate_timestamp '), common.proj_trunc)
     common.lean_failure_violation(ctx, ok)
     return ctx.finish(LEVEL,
         rule='SCT entries and lists of 0..n SCTs from the independent RFC 6962 encoder (all versions, timestamps over the u64 range, extension/signature lengths at boundaries; exact), suffixes, nested length corruptions and truncations (differential), every strict prefix of short encodings (class: never a value; Incomplete vs rejection as the model), entry-overrun (exact: the preceding SCTs only) and list-overrun (class: no value); the captured list of tests/; distinct = (family, outcome shape)',
